@@ -20,22 +20,23 @@ theorem safe_jLock {s : St} {j : Nat} (h : Safe s) (hj : j < s.nJob) (hpc : (s.j
     have := (h.jobs k hk).lock hc
     rw [hl] at this; cases this
   apply safe_setJob h1
-  · obtain ⟨h0, hn1, hn2, h1, h2, h3, h4, h5, h6, h7, h8, h9, h10, h11, h12, h13, h14⟩ := h.jobs j hj
+  · obtain ⟨h0, hn0, hn1, hn2, h1, h2, h3, h4, h5, h6, h7, h8, h9, h10, hrec, h11, h12, h13, h14⟩ := h.jobs j hj
     generalize s.job j = b at *
     obtain ⟨kind, pc, payload, snap, inputs, trivial, todoIn, out, edit, csnap, newVer, prev, prevZero, dlist, live, todoDel⟩ := b
     simp only at hpc; subst hpc
     constructor <;>
-      simp only [setLock, compactOnly, preAlloc, outPending, outOnDisk, inCommit, ownRange, csnapRange, editRange, delRange,
+      simp only [setLock, compactOnly, preAlloc, outPending, outOnDisk, inCommit, ownRange, csnapRange, editRange, delRange, postSwap,
         PastPending, Dead, DeadR, outNo] at * <;> grind
   · left; rfl
 
-theorem safe_readyEmpty {s : St} {j : Nat} (h : Safe s) (hj : j < s.nJob) (hpc : (s.job j).pc = .ready) :
+theorem safe_readyEmpty {s : St} {j : Nat} (h : Safe s) (hj : j < s.nJob) (hpc : (s.job j).pc = .ready)
+    (hempty : (s.job j).edit.isEmpty = true) :
     Safe (setPc s j .cUnlocked) := by
   apply safe_setPc_plain h
-  obtain ⟨h0, hn1, hn2, h1, h2, h3, h4, h5, h6, h7, h8, h9, h10, h11, h12, h13, h14⟩ := h.jobs j hj
+  obtain ⟨h0, hn0, hn1, hn2, h1, h2, h3, h4, h5, h6, h7, h8, h9, h10, hrec, h11, h12, h13, h14⟩ := h.jobs j hj
   generalize s.job j = b at *
   obtain ⟨kind, pc, payload, snap, inputs, trivial, todoIn, out, edit, csnap, newVer, prev, prevZero, dlist, live, todoDel⟩ := b
-  simp only at hpc; subst hpc
+  simp only at hpc hempty; subst hpc
   jobok_at
 
 theorem safe_jSnap {s : St} {j : Nat} (h : Safe s) (hj : j < s.nJob) (hpc : (s.job j).pc = .cLocked) :
@@ -57,26 +58,33 @@ theorem safe_jSnap {s : St} {j : Nat} (h : Safe s) (hj : j < s.nJob) (hpc : (s.j
   have hb1 := jobOk_acquire (o := some j) hb0
   have hb2 := jobOk_build (e := (s.job j).edit) hb1 h1.ver_bound.1 h1.ver_bound.2.1 h1.ver_bound.2.2
   apply safe_setJob h2
-  · obtain ⟨h0, hn1, hn2, h1, h2, h3, h4, h5, h6, h7, h8, h9, h10, h11, h12, h13, h14⟩ := hb2
+  · obtain ⟨h0, hn0, hn1, hn2, h1, h2, h3, h4, h5, h6, h7, h8, h9, h10, hrec, h11, h12, h13, h14⟩ := hb2
     have hown0 := hb0.own
     generalize s.job j = b at *
     obtain ⟨kind, pc, payload, snap, inputs, trivial, todoIn, out, edit, csnap, newVer, prev, prevZero, dlist, live, todoDel⟩ := b
     simp only at hpc; subst hpc
     constructor <;>
-      simp only [buildVersion, snapAcquire, compactOnly, preAlloc, outPending, outOnDisk, inCommit, ownRange, csnapRange, editRange, delRange,
+      simp only [buildVersion, snapAcquire, compactOnly, preAlloc, outPending, outOnDisk, inCommit, ownRange, csnapRange, editRange, delRange, postSwap,
         PastPending, Dead, DeadR, outNo] at * <;> grind [upd]
   · left; rfl
 
+theorem upd_upd {α : Type} (f : Nat → α) (i : Nat) (x y : α) : upd (upd f i x) i y = upd f i y := by
+  funext k; simp only [upd]; split <;> rfl
+
 theorem jSwap_eq (s : St) (j : Nat) :
-    jSwap s j = swapVersion (setPc s j .cSwapped) (s.job j).newVer (s.job j).edit := rfl
+    jSwap s j = noteFlush ((swapVersion (setPc s j .cLocked) (s.job j).newVer (s.job j).edit).setJob j
+      { s.job j with pc := .cSwapped }) (if (s.job j).kind = .flush then outNo (s.job j) else []) := by
+  simp only [jSwap, noteFlush, swapVersion, setPc, St.setJob, upd_upd]
 
 theorem safe_jSwap {s : St} {j : Nat} (h : Safe s) (hj : j < s.nJob) (hpc : (s.job j).pc = .cSnapped) :
     Safe (jSwap s j) := by
   rw [jSwap_eq]
+  apply safe_noteFlush
   have hb0 := h.jobs j hj
-  have h1 : Safe (setPc s j .cSwapped) := by
+  -- step back to the pc before the clone (no clause about the built version), install, then move on
+  have h1 : Safe (setPc s j .cLocked) := by
     apply safe_setPc_plain h
-    obtain ⟨h0, hn1, hn2, h1, h2, h3, h4, h5, h6, h7, h8, h9, h10, h11, h12, h13, h14⟩ := hb0
+    obtain ⟨h0, hn0, hn1, hn2, h1, h2, h3, h4, h5, h6, h7, h8, h9, h10, hrec, h11, h12, h13, h14⟩ := hb0
     generalize s.job j = b at *
     obtain ⟨kind, pc, payload, snap, inputs, trivial, todoIn, out, edit, csnap, newVer, prev, prevZero, dlist, live, todoDel⟩ := b
     simp only at hpc; subst hpc
@@ -86,32 +94,43 @@ theorem safe_jSwap {s : St} {j : Nat} (h : Safe s) (hj : j < s.nJob) (hpc : (s.j
   have hpend := hb0.pend (by rw [hpc]; rfl)
   have hdisk := hb0.ondisk (by rw [hpc]; rfl)
   have hlock := hb0.lock (by rw [hpc]; rfl)
-  apply safe_swap h1 (by simpa [setPc, St.setJob] using hlt) (by simpa [setPc, St.setJob] using heq)
-  · intro m hm
-    simp only [setPc, St.setJob]
-    rcases hed.1 m hm with h' | ⟨hc, h'⟩
-    · exact ⟨hdisk _ h', Or.inl (hpend _ h')⟩
-    · have hown := hb0.own hc (by rw [hpc]; rfl)
-      have hact := h.open_active _ hown.1 hown.2.1
-      exact ⟨h.files_on_disk _ hact _ h', Or.inr ⟨_, hact, h'⟩⟩
-  · intro g hg
-    simp only [setPc, St.setJob]
-    exact ⟨hpend _ (hed.2 g hg), hdisk _ (hed.2 g hg)⟩
-  · intro k hk
-    simp only [setPc, St.setJob, upd]
-    by_cases hkj : k = j
-    · simp [hkj]
-    · simp only [hkj, if_false]
-      intro hc
-      have := (h.jobs k hk).lock (by rw [hc]; rfl)
-      rw [hlock] at this
-      exact hkj (by cases this; rfl)
+  have h2 : Safe (swapVersion (setPc s j .cLocked) (s.job j).newVer (s.job j).edit) := by
+    apply safe_swap h1 (by simpa [setPc, St.setJob] using hlt) (by simpa [setPc, St.setJob] using heq)
+    · intro m hm
+      simp only [setPc, St.setJob]
+      rcases hed.1 m hm with h' | ⟨hc, h'⟩
+      · exact ⟨hdisk _ h', Or.inl (hpend _ h')⟩
+      · have hown := hb0.own hc (by rw [hpc]; rfl)
+        have hact := h.open_active _ hown.1 hown.2.1
+        exact ⟨h.files_on_disk _ hact _ h', Or.inr ⟨_, hact, h'⟩⟩
+    · intro g hg
+      simp only [setPc, St.setJob]
+      exact ⟨hpend _ (hed.2 g hg), hdisk _ (hed.2 g hg)⟩
+    · intro k hk
+      simp only [setPc, St.setJob, upd]
+      by_cases hkj : k = j
+      · simp [hkj]
+      · simp only [hkj, if_false]
+        intro hc
+        have := (h.jobs k hk).lock (by rw [hc]; rfl)
+        rw [hlock] at this
+        exact hkj (by cases this; rfl)
+  apply safe_setJob h2
+  · clear h1 h2 hed hpend hdisk hlock hlt heq
+    obtain ⟨h0, hn0, hn1, hn2, h1, h2, h3, h4, h5, h6, h7, h8, h9, h10, hrec, h11, h12, h13, h14⟩ := hb0
+    generalize s.job j = b at *
+    obtain ⟨kind, pc, payload, snap, inputs, trivial, todoIn, out, edit, csnap, newVer, prev, prevZero, dlist, live, todoDel⟩ := b
+    simp only at hpc; subst hpc
+    constructor <;>
+      simp only [swapVersion, setPc, St.setJob, compactOnly, preAlloc, outPending, outOnDisk, inCommit, ownRange, csnapRange,
+        editRange, delRange, postSwap, PastPending, Dead, DeadR, outNo] at * <;> grind
+  · left; simp [swapVersion, setPc, St.setJob, upd, outNo]
 
 theorem safe_jCheck {s : St} {j : Nat} (h : Safe s) (hj : j < s.nJob) (hpc : (s.job j).pc = .cSwapped) :
     Safe (jCheck s j) := by
   unfold jCheck
   apply safe_setJob h
-  · obtain ⟨h0, hn1, hn2, h1, h2, h3, h4, h5, h6, h7, h8, h9, h10, h11, h12, h13, h14⟩ := h.jobs j hj
+  · obtain ⟨h0, hn0, hn1, hn2, h1, h2, h3, h4, h5, h6, h7, h8, h9, h10, hrec, h11, h12, h13, h14⟩ := h.jobs j hj
     generalize s.job j = b at *
     obtain ⟨kind, pc, payload, snap, inputs, trivial, todoIn, out, edit, csnap, newVer, prev, prevZero, dlist, live, todoDel⟩ := b
     simp only at hpc; subst hpc
@@ -124,7 +143,7 @@ theorem safe_jPrevRm {cfg : Cfg} {s : St} {j : Nat} (hr : cfg.recheck = true) (h
   dsimp only
   have h1 : Safe (setPc s j .cPrevDone) := by
     apply safe_setPc_plain h
-    obtain ⟨h0, hn1, hn2, h1, h2, h3, h4, h5, h6, h7, h8, h9, h10, h11, h12, h13, h14⟩ := h.jobs j hj
+    obtain ⟨h0, hn0, hn1, hn2, h1, h2, h3, h4, h5, h6, h7, h8, h9, h10, hrec, h11, h12, h13, h14⟩ := h.jobs j hj
     generalize s.job j = b at *
     obtain ⟨kind, pc, payload, snap, inputs, trivial, todoIn, out, edit, csnap, newVer, prev, prevZero, dlist, live, todoDel⟩ := b
     simp only at hpc; subst hpc
@@ -149,7 +168,7 @@ theorem safe_cDec {s : St} {j : Nat} (h : Safe s) (hj : j < s.nJob) (hpc : (s.jo
   have hcs := hb0.csnap (by rw [hpc]; rfl)
   have h1 : Safe (setPc s j .cDecd) := by
     apply safe_setPc_plain h
-    obtain ⟨h0, hn1, hn2, h1, h2, h3, h4, h5, h6, h7, h8, h9, h10, h11, h12, h13, h14⟩ := hb0
+    obtain ⟨h0, hn0, hn1, hn2, h1, h2, h3, h4, h5, h6, h7, h8, h9, h10, hrec, h11, h12, h13, h14⟩ := hb0
     generalize s.job j = b at *
     obtain ⟨kind, pc, payload, snap, inputs, trivial, todoIn, out, edit, csnap, newVer, prev, prevZero, dlist, live, todoDel⟩ := b
     simp only at hpc; subst hpc
@@ -170,7 +189,7 @@ theorem safe_cRemove {cfg : Cfg} {s : St} {j : Nat} (hr : cfg.recheck = true) (h
   have hcs := hb0.csnap (by rw [hpc]; rfl)
   have h1 : Safe (setPc s j .cRemoved) := by
     apply safe_setPc_plain h
-    obtain ⟨h0, hn1, hn2, h1, h2, h3, h4, h5, h6, h7, h8, h9, h10, h11, h12, h13, h14⟩ := hb0
+    obtain ⟨h0, hn0, hn1, hn2, h1, h2, h3, h4, h5, h6, h7, h8, h9, h10, hrec, h11, h12, h13, h14⟩ := hb0
     generalize s.job j = b at *
     obtain ⟨kind, pc, payload, snap, inputs, trivial, todoIn, out, edit, csnap, newVer, prev, prevZero, dlist, live, todoDel⟩ := b
     simp only at hpc; subst hpc
@@ -184,7 +203,7 @@ theorem safe_cRel {s : St} {j : Nat} (h : Safe s) (hj : j < s.nJob)
   have hcs := hb0.csnap (by rw [hpc]; rfl)
   have h1 : Safe (setPc s j .cReleased) := by
     apply safe_setPc_plain h
-    obtain ⟨h0, hn1, hn2, h1, h2, h3, h4, h5, h6, h7, h8, h9, h10, h11, h12, h13, h14⟩ := hb0
+    obtain ⟨h0, hn0, hn1, hn2, h1, h2, h3, h4, h5, h6, h7, h8, h9, h10, hrec, h11, h12, h13, h14⟩ := hb0
     generalize s.job j = b at *
     obtain ⟨kind, pc, payload, snap, inputs, trivial, todoIn, out, edit, csnap, newVer, prev, prevZero, dlist, live, todoDel⟩ := b
     simp only at hpc; subst hpc
@@ -198,7 +217,7 @@ theorem safe_jUnlock {s : St} {j : Nat} (h : Safe s) (hj : j < s.nJob) (hpc : (s
   have hlock := hb0.lock (by rw [hpc]; rfl)
   have h1 : Safe (setPc s j .cUnlocked) := by
     apply safe_setPc_plain h
-    obtain ⟨h0, hn1, hn2, h1, h2, h3, h4, h5, h6, h7, h8, h9, h10, h11, h12, h13, h14⟩ := hb0
+    obtain ⟨h0, hn0, hn1, hn2, h1, h2, h3, h4, h5, h6, h7, h8, h9, h10, hrec, h11, h12, h13, h14⟩ := hb0
     generalize s.job j = b at *
     obtain ⟨kind, pc, payload, snap, inputs, trivial, todoIn, out, edit, csnap, newVer, prev, prevZero, dlist, live, todoDel⟩ := b
     simp only at hpc; subst hpc
@@ -219,7 +238,7 @@ theorem safe_jUnpend {s : St} {j : Nat} (pc' : Pc) (h : Safe s) (hj : j < s.nJob
   have hb0 := h.jobs j hj
   have h1 : Safe (setPc s j pc') := by
     apply safe_setPc_plain h
-    obtain ⟨h0, hn1, hn2, h1, h2, h3, h4, h5, h6, h7, h8, h9, h10, h11, h12, h13, h14⟩ := hb0
+    obtain ⟨h0, hn0, hn1, hn2, h1, h2, h3, h4, h5, h6, h7, h8, h9, h10, hrec, h11, h12, h13, h14⟩ := hb0
     generalize s.job j = b at *
     obtain ⟨kind, pc, payload, snap, inputs, trivial, todoIn, out, edit, csnap, newVer, prev, prevZero, dlist, live, todoDel⟩ := b
     simp only at hpc hpc'; subst hpc
@@ -240,7 +259,7 @@ theorem safe_oDec {s : St} {j : Nat} (h : Safe s) (hj : j < s.nJob) (hpc : (s.jo
   have hown := hb0.own hk (by rw [hpc]; rfl)
   have h1 : Safe (setPc s j .oDecd) := by
     apply safe_setPc_plain h
-    obtain ⟨h0, hn1, hn2, h1, h2, h3, h4, h5, h6, h7, h8, h9, h10, h11, h12, h13, h14⟩ := hb0
+    obtain ⟨h0, hn0, hn1, hn2, h1, h2, h3, h4, h5, h6, h7, h8, h9, h10, hrec, h11, h12, h13, h14⟩ := hb0
     generalize s.job j = b at *
     obtain ⟨kind, pc, payload, snap, inputs, trivial, todoIn, out, edit, csnap, newVer, prev, prevZero, dlist, live, todoDel⟩ := b
     simp only at hpc; subst hpc
@@ -260,7 +279,7 @@ theorem safe_oRemove {cfg : Cfg} {s : St} {j : Nat} (hr : cfg.recheck = true) (h
   have hidx := hb0.ownIdx (Or.inl hpc)
   have h1 : Safe (setPc s j .oRemoved) := by
     apply safe_setPc_plain h
-    obtain ⟨h0, hn1, hn2, h1, h2, h3, h4, h5, h6, h7, h8, h9, h10, h11, h12, h13, h14⟩ := hb0
+    obtain ⟨h0, hn0, hn1, hn2, h1, h2, h3, h4, h5, h6, h7, h8, h9, h10, hrec, h11, h12, h13, h14⟩ := hb0
     generalize s.job j = b at *
     obtain ⟨kind, pc, payload, snap, inputs, trivial, todoIn, out, edit, csnap, newVer, prev, prevZero, dlist, live, todoDel⟩ := b
     simp only at hpc; subst hpc
@@ -274,7 +293,7 @@ theorem safe_oRel {s : St} {j : Nat} (h : Safe s) (hj : j < s.nJob)
   have hidx := hb0.ownIdx (Or.inr hpc)
   have h1 : Safe (setPc s j .doStart) := by
     apply safe_setPc_plain h
-    obtain ⟨h0, hn1, hn2, h1, h2, h3, h4, h5, h6, h7, h8, h9, h10, h11, h12, h13, h14⟩ := hb0
+    obtain ⟨h0, hn0, hn1, hn2, h1, h2, h3, h4, h5, h6, h7, h8, h9, h10, hrec, h11, h12, h13, h14⟩ := hb0
     generalize s.job j = b at *
     obtain ⟨kind, pc, payload, snap, inputs, trivial, todoIn, out, edit, csnap, newVer, prev, prevZero, dlist, live, todoDel⟩ := b
     simp only at hpc; subst hpc
